@@ -8,6 +8,7 @@
 #include <array>
 #include <cerrno>
 #include <ctime>
+#include <unistd.h>
 using namespace hmac_cpp;
 
 // ---- interposed clock (as the repository's own tests do): std::time resolves to this definition ----
@@ -80,6 +81,7 @@ static std::string sha_forms(const std::string& t, const Bytes& m) {
     std::string s = str_of(m);
     if (t == "sha1") {
         uint8_t d[20]; hmac_hash::sha1(m.data(), m.size(), d); f.push_back(std::make_pair("raw", hx(d, 20)));
+        { Misaligned mm(m, 6); uint8_t e[20]; hmac_hash::sha1(mm.p, m.size(), e); f.push_back(std::make_pair("raw-misaligned", hx(e, 20))); }
         if (m.empty()) { uint8_t e[20]; hmac_hash::sha1(pn(m), 0, e); f.push_back(std::make_pair("raw-null", hx(e, 20))); hmac_hash::sha1(pv(m), 0, e); f.push_back(std::make_pair("raw-valid", hx(e, 20))); }
         f.push_back(std::make_pair("ptrvec", hx(hmac_hash::sha1(m.data(), m.size()))));
         f.push_back(std::make_pair("vec", hx(hmac_hash::sha1(m))));
@@ -87,6 +89,7 @@ static std::string sha_forms(const std::string& t, const Bytes& m) {
         f.push_back(std::make_pair("strhex", hmac_hash::sha1(s)));
     } else if (t == "sha256") {
         uint8_t d[32]; hmac_hash::sha256(m.data(), m.size(), d); f.push_back(std::make_pair("raw", hx(d, 32)));
+        { Misaligned mm(m, 4); uint8_t e[32]; hmac_hash::sha256(mm.p, m.size(), e); f.push_back(std::make_pair("raw-misaligned", hx(e, 32))); }
         if (m.empty()) { uint8_t e[32]; hmac_hash::sha256(pn(m), 0, e); f.push_back(std::make_pair("raw-null", hx(e, 32))); hmac_hash::sha256(pv(m), 0, e); f.push_back(std::make_pair("raw-valid", hx(e, 32))); }
         f.push_back(std::make_pair("ptrvec", hx(hmac_hash::sha256(m.data(), m.size()))));
         f.push_back(std::make_pair("vec", hx(hmac_hash::sha256(m))));
@@ -94,6 +97,7 @@ static std::string sha_forms(const std::string& t, const Bytes& m) {
         f.push_back(std::make_pair("strhex", hmac_hash::sha256(s)));
     } else {
         uint8_t d[64]; hmac_hash::sha512(m.data(), m.size(), d); f.push_back(std::make_pair("raw", hx(d, 64)));
+        { Misaligned mm(m, 1); uint8_t e[64]; hmac_hash::sha512(mm.p, m.size(), e); f.push_back(std::make_pair("raw-misaligned", hx(e, 64))); }
         if (m.empty()) { uint8_t e[64]; hmac_hash::sha512(pn(m), 0, e); f.push_back(std::make_pair("raw-null", hx(e, 64))); hmac_hash::sha512(pv(m), 0, e); f.push_back(std::make_pair("raw-valid", hx(e, 64))); }
         f.push_back(std::make_pair("ptrvec", hx(hmac_hash::sha512(m.data(), m.size()))));
         f.push_back(std::make_pair("vec", hx(hmac_hash::sha512(m))));
@@ -115,6 +119,8 @@ static std::string hmac_forms(TypeHash ty, const Bytes& k, const Bytes& m) {
         f.push_back(std::make_pair("ptr-null-empties", hx(get_hmac(pn(k), k.size(), pn(m), m.size(), ty))));
         f.push_back(std::make_pair("ptr-valid-empties", hx(get_hmac(pv(k), k.size(), pv(m), m.size(), ty))));
     }
+    { Misaligned mk(k, 0), mm(m, 2); f.push_back(std::make_pair("ptr-misaligned", hx(get_hmac(mk.p, k.size(), mm.p, m.size(), ty)))); }
+    { Misaligned mk(k, 4), mm(m, 6); f.push_back(std::make_pair("ptr-misaligned2", hx(get_hmac(mk.p, k.size(), mm.p, m.size(), ty)))); }
     f.push_back(std::make_pair("vec", hx(get_hmac(k, m, ty))));
     f.push_back(std::make_pair("vecchar", hx(get_hmac(chars_of(k), chars_of(m), ty))));
     return agree(f);
@@ -179,7 +185,22 @@ static std::string compute_static() {
     for (size_t i = 0; i < sizeof g_static_lines / sizeof g_static_lines[0]; ++i) { if (i) out += "|"; out += guarded([&]() { return run(split(g_static_lines[i], ' ')); }); }
     return out;
 }
+// ... and once more while the process is shutting down. The checking object is fully constructed BEFORE the first library call of the process, so
+// its destructor runs after every function-local static the library creates has been destroyed. The decoder lines are left out: they use
+// thread-local output objects of the main thread, which no longer exist at that point.
+static std::string compute_exit() {
+    std::string out;
+    for (size_t i = 0; i < sizeof g_static_lines / sizeof g_static_lines[0]; ++i) {
+        std::string l = g_static_lines[i]; if (l.find("dec ") != std::string::npos) continue;
+        out += "|"; out += guarded([&]() { return run(split(l, ' ')); }); }
+    return out;
+}
+struct AtExitCheck { std::string expect; AtExitCheck() {}
+    ~AtExitCheck() { if (expect.empty()) return; std::string now = compute_exit();
+                     if (now != expect) { fprintf(stderr, "AT-EXIT-MISMATCH results of calls made during static destruction differ: %.300s\n", now.c_str()); fflush(stderr); _exit(97); } } };
+static AtExitCheck g_at_exit_check;
 static const std::string g_static_results = compute_static();
+static const bool g_at_exit_armed = (g_at_exit_check.expect = compute_exit(), true);
 
 static std::string run(const std::vector<std::string>& a) {
     const std::string& op = a[0];
@@ -226,6 +247,8 @@ static std::string run(const std::vector<std::string>& a) {
                             // full = 1 adds get_hash(ptr, n) and a 37-byte update followed by one update with the rest
         size_t n = (size_t)strtoull(a[2].c_str(), 0, 10); bool full = a.size() > 3 && a[3] == "1"; uint8_t* z = (uint8_t*)calloc(n ? n : 1, 1);     // untouched zero pages: no resident memory
         if (!z) return "HARNESS-no-memory";
+        // a few non-zero bytes at both ends (two pages touched): the tail after the last whole block must come from the END of the buffer
+        for (size_t i = 0; i < 41 && i < n; ++i) { z[i] = (uint8_t)(0x11 + i); z[n - 1 - i] = (uint8_t)(0xA5 ^ i); }
         const size_t piece = (size_t)16 << 20; std::string one, two, chunked, split;
         if (a[1] == "sha1") { uint8_t d[20]; hmac_hash::sha1(z, n, d); one = hx(d, 20);
             hmac_hash::SHA1 c; c.init(); for (size_t i = 0; i < n; i += piece) c.update(z + i, std::min(piece, n - i)); c.finish(d); chunked = hx(d, 20); two = split = one;
@@ -244,11 +267,18 @@ static std::string run(const std::vector<std::string>& a) {
         secure_buffer<uint8_t> sk(k.size()); if (!k.empty()) memcpy(sk.data(), k.data(), k.size());
         std::vector<std::pair<std::string, Thunk> > fs;
         FORM("ptr", ok_int(get_hotp_code(k.data(), k.size(), c, d, ty)));
+        FORM("ptr-misaligned", ({ Misaligned mk(k, 2); ok_int(get_hotp_code(mk.p, k.size(), c, d, ty)); }));
         if (k.empty()) { FORM("ptr-null-key", ok_int(get_hotp_code(pn(k), 0, c, d, ty))); FORM("ptr-valid-key", ok_int(get_hotp_code(pv(k), 0, c, d, ty))); }
         FORM("vec", ok_int(get_hotp_code(k, c, d, ty)));
         FORM("vecchar", ok_int(get_hotp_code(chars_of(k), c, d, ty)));
         FORM("secure", ok_int(get_hotp_code(sk, c, d, ty)));
         FORM("str", ok_int(get_hotp_code(str_of(k), c, d, ty)));
+        if (ty == TypeHash::SHA1) {      // the documented defaults (digits = 6, SHA-1) left out
+            FORM("ptr-default-hash", ok_int(get_hotp_code(k.data(), k.size(), c, d))); FORM("vec-default-hash", ok_int(get_hotp_code(k, c, d)));
+            FORM("secure-default-hash", ok_int(get_hotp_code(sk, c, d))); FORM("str-default-hash", ok_int(get_hotp_code(str_of(k), c, d)));
+            if (d == 6) { FORM("ptr-defaults", ok_int(get_hotp_code(k.data(), k.size(), c))); FORM("vec-defaults", ok_int(get_hotp_code(k, c)));
+                          FORM("secure-defaults", ok_int(get_hotp_code(sk, c))); FORM("str-defaults", ok_int(get_hotp_code(str_of(k), c))); }
+        }
         return agree_guarded(fs);
     }
     if (op == "totpat") {
@@ -260,6 +290,13 @@ static std::string run(const std::vector<std::string>& a) {
         FORM("vecchar", ok_int(get_totp_code_at(chars_of(k), ts, p, d, ty)));
         FORM("secure", ok_int(get_totp_code_at(sk, ts, p, d, ty)));
         FORM("str", ok_int(get_totp_code_at(str_of(k), ts, p, d, ty)));
+        if (ty == TypeHash::SHA1) {      // documented defaults (period = 30, digits = 6, SHA-1) left out
+            FORM("ptr-default-hash", ok_int(get_totp_code_at(k.data(), k.size(), ts, p, d))); FORM("vec-default-hash", ok_int(get_totp_code_at(k, ts, p, d)));
+            FORM("secure-default-hash", ok_int(get_totp_code_at(sk, ts, p, d))); FORM("str-default-hash", ok_int(get_totp_code_at(str_of(k), ts, p, d)));
+            if (d == 6) { FORM("vec-default-digits", ok_int(get_totp_code_at(k, ts, p))); FORM("secure-default-digits", ok_int(get_totp_code_at(sk, ts, p))); }
+            if (d == 6 && p == 30) { FORM("ptr-defaults", ok_int(get_totp_code_at(k.data(), k.size(), ts))); FORM("vec-defaults", ok_int(get_totp_code_at(k, ts)));
+                                     FORM("secure-defaults", ok_int(get_totp_code_at(sk, ts))); FORM("str-defaults", ok_int(get_totp_code_at(str_of(k), ts))); }
+        }
         return agree_guarded(fs);
     }
     if (op == "totpnow") {
@@ -272,6 +309,11 @@ static std::string run(const std::vector<std::string>& a) {
         FORM("vecchar", ok_int(get_totp_code(chars_of(k), p, d, ty)));
         FORM("secure", ok_int(get_totp_code(sk, p, d, ty)));
         FORM("str", ok_int(get_totp_code(str_of(k), p, d, ty)));
+        if (ty == TypeHash::SHA1) {
+            FORM("vec-default-hash", ok_int(get_totp_code(k, p, d))); FORM("secure-default-hash", ok_int(get_totp_code(sk, p, d)));
+            if (d == 6 && p == 30) { FORM("ptr-defaults", ok_int(get_totp_code(k.data(), k.size()))); FORM("vec-defaults", ok_int(get_totp_code(k)));
+                                     FORM("secure-defaults", ok_int(get_totp_code(sk))); FORM("str-defaults", ok_int(get_totp_code(str_of(k)))); }
+        }
         return agree_guarded(fs);
     }
     if (op == "hotpdg") return ok_int(detail::hotp_from_digest(bx(a[1]), atoi(a[2].c_str())));
@@ -285,6 +327,11 @@ static std::string run(const std::vector<std::string>& a) {
         FORM("vecchar", ok_bool(is_totp_token_valid(tok, chars_of(k), ts, p, d, ty)));
         FORM("secure", ok_bool(is_totp_token_valid(tok, sk, ts, p, d, ty)));
         FORM("str", ok_bool(is_totp_token_valid(tok, str_of(k), ts, p, d, ty)));
+        if (ty == TypeHash::SHA1) {
+            FORM("vec-default-hash", ok_bool(is_totp_token_valid(tok, k, ts, p, d))); FORM("secure-default-hash", ok_bool(is_totp_token_valid(tok, sk, ts, p, d)));
+            if (d == 6 && p == 30) { FORM("ptr-defaults", ok_bool(is_totp_token_valid(tok, k.data(), k.size(), ts))); FORM("vec-defaults", ok_bool(is_totp_token_valid(tok, k, ts)));
+                                     FORM("secure-defaults", ok_bool(is_totp_token_valid(tok, sk, ts))); FORM("str-defaults", ok_bool(is_totp_token_valid(tok, str_of(k), ts))); }
+        }
         return agree_guarded(fs);
     }
     if (op == "totpvalidnow") {
@@ -297,6 +344,14 @@ static std::string run(const std::vector<std::string>& a) {
         FORM("vecchar", ok_bool(is_totp_token_valid(tok, chars_of(k), p, d, ty)));
         FORM("secure", ok_bool(is_totp_token_valid(tok, sk, p, d, ty)));
         FORM("str", ok_bool(is_totp_token_valid(tok, str_of(k), p, d, ty)));
+        return agree_guarded(fs);
+    }
+    if (op == "pbkdf2end") {    // pbkdf2end <t> <P> <S> <c> <dk> <k>: derive dk bytes (any dk), report the last k
+        Pbkdf2Hash prf = a[1] == "sha1" ? Pbkdf2Hash::Sha1 : a[1] == "sha256" ? Pbkdf2Hash::Sha256 : Pbkdf2Hash::Sha512;
+        Bytes P = bx(a[2]), S = bx(a[3]); uint32_t c = (uint32_t)strtoul(a[4].c_str(), 0, 10); size_t dk = (size_t)strtoull(a[5].c_str(), 0, 10), k = (size_t)strtoull(a[6].c_str(), 0, 10);
+        std::vector<std::pair<std::string, Thunk> > fs;
+        FORM("vec", ({ Bytes r = pbkdf2(P.data(), P.size(), S.data(), S.size(), c, dk, prf); r.size() == dk ? "ok " + hx(r.data() + dk - k, k) : std::string("wrong-length"); }));
+        FORM("buf", ({ Bytes r(dk); bool ok = pbkdf2(prf, P.data(), P.size(), S.data(), S.size(), c, r.data(), r.size()); ok ? "ok " + hx(r.data() + dk - k, k) : std::string("false"); }));
         return agree_guarded(fs);
     }
     if (op == "pbkdf2tail") {   // pbkdf2tail <t> <P> <S> <c> <nblocks> <k>: derive nblocks whole blocks, report the last k (block indices beyond 65535 need a long output)
@@ -327,8 +382,11 @@ static std::string run(const std::vector<std::string>& a) {
             FORM("vecchar", "ok " + hx(pbkdf2_with_pepper(chars_of(P), chars_of(S), chars_of(PEP), c, dk, prf)));
             FORM("str", "ok " + hx(pbkdf2_with_pepper(str_of(P), str_of(S), str_of(PEP), c, dk, prf)));
             FORM("secure", "ok " + hx(pbkdf2_with_pepper(sP, sS, sPEP, c, dk, prf)));
+            if (prf == Pbkdf2Hash::Sha256) { FORM("ptr-default-prf", "ok " + hx(pbkdf2_with_pepper(P.data(), P.size(), S.data(), S.size(), PEP.data(), PEP.size(), c, dk)));
+                                             FORM("vec-default-prf", "ok " + hx(pbkdf2_with_pepper(P, S, PEP, c, dk))); FORM("secure-default-prf", "ok " + hx(pbkdf2_with_pepper(sP, sS, sPEP, c, dk))); }
         } else {
             FORM("ptr", "ok " + hx(pbkdf2(P.data(), P.size(), S.data(), S.size(), c, dk, prf)));
+            FORM("ptr-misaligned", ({ Misaligned mp(P, 0), ms(S, 4); "ok " + hx(pbkdf2(mp.p, P.size(), ms.p, S.size(), c, dk, prf)); }));
             if (P.empty()) {
                 FORM("ptr-null-password", "ok " + hx(pbkdf2(pn(P), 0, S.data(), S.size(), c, dk, prf)));
                 FORM("ptr-valid-password", "ok " + hx(pbkdf2(pv(P), 0, S.data(), S.size(), c, dk, prf)));
@@ -337,6 +395,8 @@ static std::string run(const std::vector<std::string>& a) {
             FORM("vecchar", "ok " + hx(pbkdf2(chars_of(P), chars_of(S), c, dk, prf)));
             FORM("str", "ok " + hx(pbkdf2(str_of(P), str_of(S), c, dk, prf)));
             FORM("secure", "ok " + hx(pbkdf2(sP, sS, c, dk, prf)));
+            if (prf == Pbkdf2Hash::Sha256) { FORM("ptr-default-prf", "ok " + hx(pbkdf2(P.data(), P.size(), S.data(), S.size(), c, dk))); FORM("vec-default-prf", "ok " + hx(pbkdf2(P, S, c, dk)));
+                                             FORM("secure-default-prf", "ok " + hx(pbkdf2(sP, sS, c, dk))); FORM("str-default-prf", "ok " + hx(pbkdf2(str_of(P), str_of(S), c, dk))); }
             FORM("locked", ({ auto r = pbkdf2_secure(P.data(), P.size(), S.data(), S.size(), c, dk, prf); "ok " + hx(r.data(), r.size()); }));
             if (dk <= (1u << 20)) {   // stored-parameter forms: key.size() carries dk_len; salt and iters must be copied through
                 FORM("params-vec", ({ Pbkdf2Result prm; prm.salt = S; prm.iters = c; prm.key.assign(dk, 0xAA); Pbkdf2Result r = pbkdf2(P, prm, prf);
@@ -419,10 +479,14 @@ static std::string run(const std::vector<std::string>& a) {
             FORM("vec", "ok " + hxs(generate_time_token(k, iv, ty)));
             FORM("secure", "ok " + hxs(generate_time_token(sk, iv, ty)));
             FORM("str", "ok " + hxs(generate_time_token(str_of(k), iv, ty)));
+            if (ty == TypeHash::SHA256) { FORM("vec-default-hash", "ok " + hxs(generate_time_token(k, iv))); FORM("secure-default-hash", "ok " + hxs(generate_time_token(sk, iv))); FORM("str-default-hash", "ok " + hxs(generate_time_token(str_of(k), iv)));
+                if (iv == 60) { FORM("vec-defaults", "ok " + hxs(generate_time_token(k))); FORM("secure-defaults", "ok " + hxs(generate_time_token(sk))); FORM("str-defaults", "ok " + hxs(generate_time_token(str_of(k)))); } }
         } else {
             FORM("vec", "ok " + hxs(generate_time_token(k, fp, iv, ty)));
             FORM("secure", "ok " + hxs(generate_time_token(sk, fp, iv, ty)));
             FORM("str", "ok " + hxs(generate_time_token(str_of(k), fp, iv, ty)));
+            if (ty == TypeHash::SHA256) { FORM("vec-default-hash", "ok " + hxs(generate_time_token(k, fp, iv))); FORM("secure-default-hash", "ok " + hxs(generate_time_token(sk, fp, iv))); FORM("str-default-hash", "ok " + hxs(generate_time_token(str_of(k), fp, iv)));
+                if (iv == 60) { FORM("vec-defaults", "ok " + hxs(generate_time_token(k, fp))); FORM("secure-defaults", "ok " + hxs(generate_time_token(sk, fp))); FORM("str-defaults", "ok " + hxs(generate_time_token(str_of(k), fp))); } }
         }
         return agree_guarded(fs);
     }
@@ -435,10 +499,14 @@ static std::string run(const std::vector<std::string>& a) {
             FORM("vec", ok_bool(is_token_valid(tok, k, iv, ty)));
             FORM("secure", ok_bool(is_token_valid(tok, sk, iv, ty)));
             FORM("str", ok_bool(is_token_valid(tok, str_of(k), iv, ty)));
+            if (ty == TypeHash::SHA256) { FORM("vec-default-hash", ok_bool(is_token_valid(tok, k, iv))); FORM("secure-default-hash", ok_bool(is_token_valid(tok, sk, iv))); FORM("str-default-hash", ok_bool(is_token_valid(tok, str_of(k), iv)));
+                if (iv == 60) { FORM("vec-defaults", ok_bool(is_token_valid(tok, k))); FORM("secure-defaults", ok_bool(is_token_valid(tok, sk))); FORM("str-defaults", ok_bool(is_token_valid(tok, str_of(k)))); } }
         } else {
             FORM("vec", ok_bool(is_token_valid(tok, k, fp, iv, ty)));
             FORM("secure", ok_bool(is_token_valid(tok, sk, fp, iv, ty)));
             FORM("str", ok_bool(is_token_valid(tok, str_of(k), fp, iv, ty)));
+            if (ty == TypeHash::SHA256) { FORM("vec-default-hash", ok_bool(is_token_valid(tok, k, fp, iv))); FORM("secure-default-hash", ok_bool(is_token_valid(tok, sk, fp, iv))); FORM("str-default-hash", ok_bool(is_token_valid(tok, str_of(k), fp, iv)));
+                if (iv == 60) { FORM("vec-defaults", ok_bool(is_token_valid(tok, k, fp))); FORM("secure-defaults", ok_bool(is_token_valid(tok, sk, fp))); FORM("str-defaults", ok_bool(is_token_valid(tok, str_of(k), fp))); } }
         }
         return agree_guarded(fs);
     }
@@ -465,6 +533,7 @@ static std::string run(const std::vector<std::string>& a) {
         static const uint8_t dummy[1] = {0};
         const uint8_t* xn = x.empty() ? (const uint8_t*)0 : x.data(); const uint8_t* yn = y.empty() ? (const uint8_t*)0 : y.data();
         const uint8_t* xv = x.empty() ? dummy : x.data();             const uint8_t* yv = y.empty() ? dummy : y.data();
+        { Misaligned mx(x, 0), my(y, 2); f.push_back(std::make_pair("ptr-misaligned", bool_s(constant_time_equals(mx.p, x.size(), my.p, y.size())))); }
         f.push_back(std::make_pair("ptr-null-null", bool_s(constant_time_equals(xn, x.size(), yn, y.size()))));
         f.push_back(std::make_pair("ptr-null-valid", bool_s(constant_time_equals(xn, x.size(), yv, y.size()))));
         f.push_back(std::make_pair("ptr-valid-null", bool_s(constant_time_equals(xv, x.size(), yn, y.size()))));
@@ -475,6 +544,11 @@ static std::string run(const std::vector<std::string>& a) {
         { std::vector<uint8_t> xd, yr; if (!x.empty()) xd = x; if (y.empty()) yr.reserve(8); else yr = y;      // default-constructed vs reserved empty vectors
           f.push_back(std::make_pair("vec-default-reserved", bool_s(constant_time_equals(xd, yr)))); }
         return agree(f);
+    }
+    if (op == "cteqfill") {  // cteqfill <la> <fill a> <lb> <fill b>: two constant-filled inputs
+        size_t la = (size_t)strtoull(a[1].c_str(), 0, 10), lb = (size_t)strtoull(a[3].c_str(), 0, 10);
+        Bytes x(la, (uint8_t)atoi(a[2].c_str())), y(lb, (uint8_t)atoi(a[4].c_str()));
+        bool r1 = constant_time_equals(x.data(), la, y.data(), lb), r2 = constant_time_equals(y, x); return r1 == r2 ? bool_s(r1) : "ORDER-DEPENDENT";
     }
     if (op == "cteqbig") {   // cteqbig <la> <lb>: two all-zero inputs of these lengths (zero pages; lengths beyond 2^32)
         size_t la = (size_t)strtoull(a[1].c_str(), 0, 10), lb = (size_t)strtoull(a[2].c_str(), 0, 10);
@@ -497,6 +571,7 @@ int main(int argc, char** argv) {
     if (argc < 2) { fprintf(stderr, "usage: drv_pure <cases>\n"); return 2; }
     if (std::string(argv[1]) == "--platform") {
         printf("size_t=%zu time_t=%zu int=%zu max_pbkdf2_iterations=%u\n", sizeof(size_t), sizeof(time_t), sizeof(int), (unsigned)MAX_PBKDF2_ITERATIONS);
+        g_at_exit_check.expect.clear();      // the shutdown check belongs to the runs over cases
         return 0;
     }
     std::ifstream in(argv[1]);
